@@ -45,8 +45,10 @@ META = {
                   "ping timers run on the virtual clock.",
     "level_note": "Deadlines are upper bounds only (statement gives no lower bound): 5 s after tornado's close for a "
                   "silent peer, and the instant of the second close frame (+1 ms virtual, i.e. without any timer firing) "
-                  "when both sides have closed and tornado's reader is not held up by the application. Close frames with a 1-byte payload, "
-                  "an invalid status code or frames after the peer's close are UNSPECIFIED for code/reason values. "
+                  "when both sides have closed and tornado's reader is not held up by the application. Close frames with a 1-byte payload "
+                  "(no decodable code) or frames after the peer's close are UNSPECIFIED for code/reason values; status codes "
+                  "that are reserved, forbidden on the wire or unassigned (0-999, 1004-1006, 1015-2999, 5000+) are echoed and "
+                  "reported like any other code (the statement's echo clause has no exception for the value). "
                   "Teardown is observed as EOF on the peer socket, so peers disconnect by half-close where teardown is "
                   "checked.",
     "design_ref": "DESIGN.md §4 C16",
@@ -58,7 +60,8 @@ RULE = ("a case = role x family x parameters (close payload, codes/reasons, peer
 FLOORS = {"quick": 1200, "thorough": 20000}
 ASSUMPTIONS = ["virtual loop over AF_UNIX: a frame/EOF becomes readable at the instant tornado writes/closes",
                "eps = 1 ms virtual"]
-REQUIRED_COUNTERS = ["oracle_evals", "teardown_checked", "echo_checked", "notify_checked", "write_after_close_checked",
+REQUIRED_COUNTERS = ["oracle_evals", "teardown_checked", "echo_checked", "echo_checked/reserved-or-unassigned-code",
+                     "notify_checked", "write_after_close_checked",
                      "prompt_teardown_checked/tornado-closed-first", "prompt_teardown_checked/peer-closed-first",
                      "timeout_path_scenarios", "ping_timeout_closes", "disconnect_scenarios"]
 EPS = 1e-3
@@ -69,7 +72,20 @@ CLOSE_PAYLOADS = [
     ("code+reason", 3000, "grund é水".encode()), ("code", 4999, b""), ("code+reason", 1011, b"x" * 123),
     ("code", 1002, b""), ("code+reason", 4000, b"r"),
 ]
-UNSPEC_PAYLOADS = [("1byte", None, None), ("badcode", 999, b""), ("badcode", 1005, b""), ("badcode", 65535, b"z")]
+# Status codes that RFC 6455 7.4 reserves, forbids on the wire or leaves unassigned.  The statement's echo clause
+# ("echoes the peer's close code unless it had already sent its own close frame") and its notification clause ("with the
+# peer's code and reason when one was received") are quantified over every peer close frame that carries a code; they make
+# no exception for the value, tornado documents "Echo the received close code, if any" and does so for every 16-bit
+# value - so these are gated like the registered codes.  Only a payload that carries no decodable code (1 byte) is
+# UNSPECIFIED.
+RESERVED_CODE_PAYLOADS = [
+    ("code", 1005, b""), ("code+reason", 1005, b"no status"), ("code", 1006, b""), ("code+reason", 1006, b"abnormal"),
+    ("code", 1015, b""), ("code+reason", 1015, b"tls"), ("code", 1004, b""), ("code", 0, b""), ("code+reason", 1, b"low"),
+    ("code", 999, b""), ("code", 1016, b""), ("code+reason", 2999, b"unassigned"), ("code", 5000, b""),
+    ("code+reason", 65535, b"z"), ("code", 1012, b""), ("code", 1014, b""),
+]
+RESERVED_CODES = sorted({p[1] for p in RESERVED_CODE_PAYLOADS})
+UNSPEC_PAYLOADS = [("1byte", None, None)]
 BADUTF8_PAYLOAD = ("badutf8-reason", 1000, b"\xff\xfe")
 LOCAL = [(None, None), (1000, None), (None, "bye"), (1001, "going"), (4000, "x" * 100), (3001, "é")]
 
@@ -93,9 +109,11 @@ def enumerate_scenarios(tier):
     for role in ("server", "client"):
         readers = ["callback"] if role == "server" else ["callback", "queue"]
         # F1 peer-initiated close
-        for p in CLOSE_PAYLOADS + UNSPEC_PAYLOADS + [BADUTF8_PAYLOAD]:
+        for p in CLOSE_PAYLOADS + RESERVED_CODE_PAYLOADS + UNSPEC_PAYLOADS + [BADUTF8_PAYLOAD]:
             for pre in (0, 1, 2):
                 for follow in ("stay", "half", "junk"):
+                    if p in RESERVED_CODE_PAYLOADS and (pre, follow) not in ((0, "stay"), (1, "half"), (2, "stay")):
+                        continue
                     for reader in readers:
                         steps = [("msg", "m%d" % i) for i in range(pre)]
                         steps.append(peer_close_step(p))
@@ -133,6 +151,13 @@ def enumerate_scenarios(tier):
             for lc in LOCAL[:4]:
                 for p in CLOSE_PAYLOADS[:5]:
                     out.append(S(role, "crossing/" + first, [("msg", "m0"), ("cross", first, lc[0], lc[1], p)]))
+        for first in ("local", "peer"):
+            for p in RESERVED_CODE_PAYLOADS[::2]:
+                out.append(S(role, "crossing/" + first, [("cross", first, 1000, None, p)]))
+        # local close answered by a close frame with a reserved code: own code stays, notification carries the peer's
+        for p in RESERVED_CODE_PAYLOADS[1::3]:
+            out.append(S(role, "local-close/other-code", [("local_close", 1001, "going"), ("local_write", "after-local-close"),
+                                                          peer_close_step(p), ("local_write", "after-local-close")]))
         # F8 repeated closes
         for lc in LOCAL[:3]:
             out.append(S(role, "double-local-close", [("local_close", lc[0], lc[1]), ("local_close", 1001, "again"),
@@ -243,7 +268,8 @@ def random_scenario(rng, tier):
     for _ in range(closers):
         x = rng.random()
         if x < 0.35:
-            steps.append(peer_close_step(rng.choice(CLOSE_PAYLOADS), rng.random() < 0.7))
+            steps.append(peer_close_step(rng.choice(CLOSE_PAYLOADS + RESERVED_CODE_PAYLOADS[:8] + RESERVED_CODE_PAYLOADS),
+                                         rng.random() < 0.7))
         elif x < 0.7:
             lc = rng.choice(LOCAL)
             steps.append(("local_close", lc[0], lc[1]))
@@ -292,6 +318,10 @@ def directed_cases():
     # found by this check: client application writes after the library closed for a ping timeout
     yield S("client", "ping/app-write-after-timeout-close",
             [("sleep", 1.8), ("local_write", "after-ping-timeout-close"), ("sleep", 9.0)], ping=(1.0, 0.5))
+    # round-3 seeded change C16d: a peer close frame with a code that is never legal on the wire is still echoed
+    for role in ("server", "client"):
+        for p in (("code", 1005, b""), ("code+reason", 1006, b"abnormal"), ("code", 1015, b""), ("code", 999, b"")):
+            yield S(role, "peer-close", [("msg", "m0"), peer_close_step(p), ("local_write", "after-notify")])
 
 
 # ---------------------------------------------------------------------------
@@ -633,7 +663,10 @@ def judge(case, run: Run, finished_by_harness, conn_codes, ctx):
                 ctx.check(late, "echo/no-close-frame-in-response", "tornado received a close frame and never sent one", wit)
             elif pc["code"] is not None:
                 got = int.from_bytes(closes[0][1].payload[:2], "big") if len(closes[0][1].payload) >= 2 else None
-                ctx.check(got == pc["code"], "echo/code-mismatch",
+                registered = 1000 <= pc["code"] <= 1003 or 1007 <= pc["code"] <= 1014 or 3000 <= pc["code"] <= 4999
+                if not registered:
+                    ctx.count("echo_checked/reserved-or-unassigned-code")
+                ctx.check(got == pc["code"], "echo/code-mismatch" + ("" if registered else "/reserved-or-unassigned-code"),
                           "tornado answered the peer's close frame with a different status code",
                           {**wit, "echoed": got, "peer_code": pc["code"]})
     # 4. teardown
